@@ -290,7 +290,7 @@ def main():
     facts["readCatch"] = rcatch
 
     # --- NMEA headers
-    hdrs = list(pynmeagps.NMEA_HDR)
+    hdrs = sorted(pynmeagps.NMEA_HDR)
     if not all(isinstance(h, bytes) and len(h) == 2 and h[0] == 0x24 for h in hdrs):
         shape.append("NMEA_HDR: not a list of 2-byte b'$x' headers")
         hdrs = [b"\x24\x47", b"\x24\x50"]
